@@ -59,6 +59,10 @@ type irLoader struct {
 	importedPkg string // Package path; only for imported packages
 
 	imported []*goRuleSet
+
+	// customFuncs are the functions compiled from the custom declarations
+	// of the file being loaded: the only ones its rules can refer to.
+	customFuncs map[string]*quasigo.Func
 }
 
 func newIRLoader(config irLoaderConfig) *irLoader {
@@ -226,6 +230,10 @@ func (l *irLoader) compileFilterFuncs(filename string, irfile *ir.File) error {
 			l.ctx.DebugPrint(quasigo.Disasm(l.state.env, compiled))
 		}
 		ctx.Env.AddFunc(f.Pkg.Path(), decl.Name.String(), compiled)
+		if l.customFuncs == nil {
+			l.customFuncs = make(map[string]*quasigo.Func)
+		}
+		l.customFuncs[decl.Name.String()] = compiled
 	}
 
 	return nil
@@ -281,7 +289,7 @@ func (l *irLoader) loadRule(group *ir.RuleGroup, rule *ir.Rule) error {
 	}
 
 	if rule.DoFuncName != "" {
-		doFn := l.state.env.GetFunc(l.file.PkgPath, rule.DoFuncName)
+		doFn := l.customFuncs[rule.DoFuncName]
 		if doFn == nil {
 			return l.errorf(rule.Line, nil, "can't find a compiled version of %s", rule.DoFuncName)
 		}
@@ -820,7 +828,7 @@ func (l *irLoader) newFilter(filter ir.FilterExpr, info *filterInfo) (matchFilte
 
 	case ir.FilterVarFilterOp:
 		funcName := filter.Args[0].Value.(string)
-		userFn := l.state.env.GetFunc(l.file.PkgPath, funcName)
+		userFn := l.customFuncs[funcName]
 		if userFn == nil {
 			return result, l.errorf(filter.Line, nil, "can't find a compiled version of %s", funcName)
 		}
